@@ -167,7 +167,7 @@ reg("C02", harness="c02_inflate", level="exploration", deadline=(400, 2400), ext
                "fixed / balanced-dynamic / depth-15-dynamic blocks alone and after every kind of first block; a match sweep over 15 lengths x both "
                "ends of all 30 distance codes (thorough: all 256 lengths, all 32768 distances) after exact-length stored preambles; code shapes "
                "(depth-15 chains, 13-15-bit lit/len and 11-15-bit distance codes on the used symbols, single-code and empty alphabets, HLIT/HDIST "
-               "at maximum, run-length coded headers incl. zero runs spelt with symbol 16 after a 17/18 run or an explicit 0, hand-made HCLEN=5; length 258 spelt as symbol 284 + extra bits 31 next to short-coded literals, in final and non-final blocks); >64 KiB outputs with distance-32768 matches; plus zlib-made streams "
+               "at maximum, run-length coded headers incl. zero runs spelt with symbol 16 after a 17/18 run or an explicit 0, the LONGEST spelling (all 286+30 symbols coded, every length written with a 7-bit code-length code: ~286-byte headers), hand-made HCLEN=5; length 258 spelt as symbol 284 + extra bits 31 next to short-coded literals, in final and non-final blocks); >64 KiB outputs with distance-32768 matches; plus zlib-made streams "
                "(4 levels x 5 strategies x windowBits x memLevel). Each x up to 7 wrapper modes x {stateless, isal_inflate} x kernels "
                "{base,_01,_04} x 4 trailing-junk sizes; output, final state, status, reported input position and state.crc are compared with the reference. "
                "Window-edge part: every small token stream is placed behind a stored filler so that EVERY one of its output positions coincides "
@@ -249,7 +249,7 @@ reg("C10", harness="c10_bound", level="model_checking", deadline=(720, 1800), ex
 
 reg("C06", harness="c06_mutants", level="fault_enumeration", deadline=(360, 2400), extra_src=["ref/ref_inflate.c"],
     technique="complete first-order mutation closure (every truncation, single-bit flip, byte substitution) of grammar-generated seeds + all byte strings up to length 2 (3) + injected grammar faults, x drivers x kernels, judged by the reference decoder's verdict on the mutated bytes",
-    level_text="For each seed stream (<=64 bytes, every block type / code shape, raw-gzip-zlib-NO_HDR_VER framing) the COMPLETE closure of truncations, "
+    level_text="For each seed stream (<=64 bytes, every block type / code shape, raw-gzip-zlib-NO_HDR_VER framing; plus ISA-L's default-header streams and the 35 longest-header streams of up to ~330 bytes) the COMPLETE closure of truncations, "
                "single-bit flips and byte substitutions {00,FF,+1} is decoded by the real inflate under one-shot (6 output capacities), streaming, "
                "byte-at-a-time input, 1-byte output and (seeds/faults) every 2-split, kernels base/_01/_04; plus ALL byte strings of length <=2 "
                "(thorough 3) in all 7 modes and ~70 single injected grammar/wrapper faults with their documented error class (incl. both alphabets over-subscribed by ONE extra code at every depth 2..15). Completion is "
@@ -295,7 +295,7 @@ reg("C19", harness="c19_headers", level="model_checking", deadline=(300, 1500), 
                "buffer-size modes plus every proper subset of fields discarded (NULL) while the others are collected x 2 growth policies (overflow -> larger buffer keeping delivered bytes -> resume) is explored; recovered fields, "
                "stop position and statuses are checked; zlib reader under every composition of the header; all byte strings up to length 3 as headers; avail_in of 2^31-1 .. 2^32-1 (a whole mapped file "
                "handed over in one call, zero-page-backed mapping) for both header readers and both inflate entry points; at every terminal of the reader graphs a copy of the state "
-               "continues (second header parse; empty / 1-byte / rest inflate calls) and must behave like a state that parsed the header in one call.",
+               "continues (second header parse; empty / 1-byte / rest inflate calls) and must behave like a state that parsed the header in one call; recycled states: every prefix of 54 headers abandoned (header reader with/without buffers, isal_inflate) -> isal_inflate_reset -> a second header with all / exactly one optional field in one or two calls.",
     level_note="field values outside the product and chunk sizes outside {0,1,2,rest} are not covered; trusted: ref/ref_hdr.h",
     runs=[dict(flavour="sim", part="writer"), dict(flavour="sim", part="reader")],
     rule="writer case = (field combination, avail_out); reader state = image of inflate_state head + isal_gzip_header + caller buffers + cursor, "
